@@ -2,7 +2,7 @@
 from props.proxy_common import *
 
 ID = "C08"
-COQ_TARGETS = ["Run/Run_Proxy.vo"]
+COQ_TARGETS = ["Run/Run_Proxy.vo", "Run/Run_ProxyDyn.vo", "ProxyP/DynamicP.vo"]
 META = {
     "text": "Theorems (Properties/C08.v) over the Gallina model of the per-hop request/response transformation (keepControlHeaders, x-piko-forward, hop-by-hop removal incl. "
             "headers named in Connection, Te/Upgrade re-adding, X-Forwarded-For folding) and of the gateway decisions: the upstream sees method, raw path, raw query, Host, body and "
